@@ -66,6 +66,7 @@ struct Kernel {
 	uint64_t syscalls = 0;          // simulated syscalls in this run
 	uint64_t syscalls_in_call = 0;  // since the last API call began
 	uint64_t noprogress_in_call = 0;
+	uint64_t bytes_in_call = 0;     // bytes moved by simulated send/recv since the last API call began
 	bool inconclusive = false;      // harness-side cap exceeded
 	std::string inconclusive_why;
 
